@@ -198,7 +198,7 @@ def arrays_of(obj, depth=0, seen=None, path=""):
     d = getattr(obj, "__dict__", None)
     if d is not None:
         for k in sorted(d):
-            if k == "prev_layer":
+            if k == "prev_layer" or k.startswith("_"):  # back links and private caches are representation, not value
                 continue
             out += arrays_of(d[k], depth + 1, seen, path + "." + k)
     return out
@@ -234,7 +234,7 @@ def _scalars(obj, snap, path, seen, depth):
         return
     for k in sorted(d):
         v = d[k]
-        if k == "prev_layer":
+        if k == "prev_layer" or k.startswith("_"):
             continue
         if isinstance(v, (int, float, complex, str, bool, np.integer, np.floating, np.complexfloating)) or v is None:
             snap[path + "." + k] = ("scalar", _srepr(v))
